@@ -24,7 +24,7 @@ fn any_span() -> ResidencySpan {
 // @assumes hashlittle is an ideal hash (31 surviving bits injective); original update type is not Invalid(0) (see c07_residency_entry_invalid_type_byte)
 // @catches hashed range shortened/shifted (4..36 drops the type byte, span bytes uncovered), guard not compared / compared partially, span field endianness mismatch between reader and writer
 #[kani::proof]
-#[kani::unwind(36)]
+#[kani::unwind(18)]
 #[kani::stub(cascette_crypto::jenkins::hashlittle, ideal::hashlittle_ideal31)]
 fn c07_residency_entry_single_byte() {
     let ekey: [u8; 16] = kani::any();
@@ -54,7 +54,7 @@ fn c07_residency_entry_single_byte() {
 // @assumes hashlittle is an ideal hash
 // @catches (known finding, low severity: no writer in the crate emits type Invalid) lossy parse before validation
 #[kani::proof]
-#[kani::unwind(36)]
+#[kani::unwind(18)]
 #[kani::stub(cascette_crypto::jenkins::hashlittle, ideal::hashlittle_ideal31)]
 fn c07_residency_entry_invalid_type_byte() {
     let ekey: [u8; 16] = kani::any();
@@ -79,7 +79,7 @@ fn c07_residency_entry_invalid_type_byte() {
 // @assumes hashlittle is an ideal hash
 // @catches (known finding) load path that parses residency entries without validating their hash guard
 #[kani::proof]
-#[kani::unwind(41)]
+#[kani::unwind(27)]
 #[kani::stub(cascette_crypto::jenkins::hashlittle, ideal::hashlittle_ideal31)]
 fn c07_residency_page_load_n1() {
     let ekey: [u8; 16] = kani::any();
@@ -93,18 +93,10 @@ fn c07_residency_page_load_n1() {
     assert!(page.push(ResidencyEntry::new(ekey, span, type_of(tk))));
     let mut bytes = page.to_bytes();
     let mut eb = [0u8; RESIDENCY_ENTRY_SIZE];
-    let mut j = 0;
-    while j < RESIDENCY_ENTRY_SIZE {
-        eb[j] = bytes[j];
-        j += 1;
-    }
+    eb.copy_from_slice(&bytes[..RESIDENCY_ENTRY_SIZE]);
     kani::assume(v != eb[q]);
     eb[q] = v;
-    let mut j = 0;
-    while j < RESIDENCY_ENTRY_SIZE {
-        bytes[j] = eb[j];
-        j += 1;
-    }
+    bytes[..RESIDENCY_ENTRY_SIZE].copy_from_slice(&eb);
     kani::cover!(q == 4, "first ekey byte corrupted");
     let loaded = ResidencyPage::from_bytes(&bytes);
     let short = ResidencyPage::from_bytes(&bytes[..RESIDENCY_PAGE_SIZE - 1]);
